@@ -141,6 +141,18 @@ def run(ctx):
             v = vs[-1]['variants'][0]
             ctx.verdict(snake(v) == short(p), rule, '%s:%s' % (rule, v), 'Discount::X selects RegretParams::x (same name)', f.where(bi), 'Discount::%s -> RegretParams::%s' % (v, short(p)),
                         breaks='-d selects another preset than it names')
+    # ... and what the mapping returns is that preset, not a tuple rebuilt from some of its components
+    ip = b.one('Discount::into_params')
+    if ip is not None:
+        ctx.touch(ip)
+        vals_ = [strip_refs(v_) for _, _, v_ in (q.multi_def_values(ip, 0) or [(0, [], ip.local_expr(0))])]
+        presets_ = [v_ for v_ in vals_ if v_[0] == 'call' and 'RegretParams' in v_[1] and short(v_[1]) in PRESET_NAMES]
+        rebuilt_ = [v_ for v_ in vals_ if (v_[0] == 'call' and 'RegretParams' in v_[1] and short(v_[1]) == 'new') or (v_[0] == 'agg' and 'RegretParams' in v_[1])]
+        if rebuilt_:
+            ctx.bad(rule, rule + ':preset-unchanged', 'the parameters handed to the solver for -d X are RegretParams::x() as documented, all four components', ip.where(0),
+                    'returns %s' % facts.show(rebuilt_[0])[:100], breaks='a documented preset is silently altered (e.g. vanilla\'s no-positive weight 0 replaced by inf)')
+        elif presets_ and len(presets_) == len(vals_):
+            ctx.ok(rule, rule + ':preset-unchanged', 'the parameters handed to the solver for -d X are RegretParams::x() as documented, all four components', ip.where(0), '%d preset calls returned as they are' % len(presets_))
     nvar = len(b.adts.get('Discount', []))
     if n < 5 or n % nvar:    # a multiple: the table also lives, inlined, in its caller
         ctx.anchor_lost(rule, 'Discount -> RegretParams preset arms', 'found %d arms for %d variants' % (n, nvar))
@@ -177,6 +189,11 @@ def run(ctx):
                     return ('b', 'ext' + consts[-1])
                 if sp in ('eq', 'ne') and on_input and '-' in consts:
                     return ('b', 'stdin') if sp == 'eq' else ('not', ('b', 'stdin'))
+                # the extension taken apart with std::path: `Path::new(input).extension() == Some("json")`
+                via_ext = any(x[0] == 'call' and short(x[1]) == 'extension' for a in e[2] for x in facts.walk(a))
+                if sp in ('eq', 'ne') and on_input and via_ext and consts and consts[-1] in ('json', 'efg'):
+                    v_ = ('b', 'ext.' + consts[-1])
+                    return v_ if sp == 'eq' else ('not', v_)
             return None
 
         def sink(self, f, bi, t, it):
